@@ -1118,20 +1118,31 @@ func (w *jobctlWorld) monitorPendingMarkers(submitted *execution.Job) {
 			w.c.Violate("C12", "pending-not-early", "task %s reaped for pending timeout at %d, created %d, timeout %ds: deadline %d not reached",
 				r.Name, now.Unix(), r.CreationTimestamp.Unix(), *t, dl.Unix())
 		}
-		// "a task that has not begun running": ground truth is whether the simulated kubelet ever
-		// started a container of this task.  When even the CURRENT pod object on the server does not
-		// show a container start (the container is waiting to be restarted: restartPolicy OnFailure,
-		// CrashLoopBackOff) the reaping is the controller's own doing; when the server's pod does show
-		// it, the sync was served an older, still pending copy by the pod cache (outside
-		// E-PodCacheFresh): observed, not claimed.
+		// "a task that has not begun running" (full strength since the repair of F32:
+		// handlePendingTasks judges a task by the ref recorded in status.tasks, and
+		// GetContainerStartTime also reads LastTerminationState).  Two clauses:
+		// (a) ground truth: the simulated kubelet started a container of this task, the task's pod
+		// is alive on the server and its current state shows no container start (the container is
+		// waiting to be restarted: restartPolicy OnFailure, CrashLoopBackOff) — the reaping is the
+		// controller's own doing;
+		// (b) the record: the very status the pass submits records a running timestamp for the task
+		// it marks PendingTimeout (Lean: C12Plan.recorded_running_not_reaped,
+		// C12Hist.pending_only_never_ran) — before the repair this happened whenever the pod cache
+		// served an older, still pending copy after a live read had recorded the start, and was only
+		// counted.
+		// What remains observed, not claimed (outside E-PodCacheFresh): the kubelet started the
+		// container, nothing is recorded yet and the pod cache serves a copy from before the start.
 		ran, didRun := w.everRan[r.Name]
 		live := w.apiPod(r.Name)
 		switch {
 		case didRun && live != nil && w.ownedBy(live) && podAlive(live) && !podShowsStart(live):
 			w.c.Violate("C12", "pending-only-never-ran", "task %s reaped for PENDING timeout at %d s although it had begun running: the kubelet started its container at %d s (recorded runningTimestamp %s); its container is now waiting to be restarted, so the pod no longer shows a start time",
 				r.Name, now.Unix(), ran/1e9, tsec(r.RunningTimestamp))
-		case !r.RunningTimestamp.IsZero() || didRun:
-			w.c.Count("jc.observed.reaped-although-recorded-running(stale pod cache)")
+		case !r.RunningTimestamp.IsZero():
+			w.c.Violate("C12", "pending-only-never-ran", "task %s reaped for PENDING timeout at %d s although the status the pass submits records that it began running at %s",
+				r.Name, now.Unix(), tsec(r.RunningTimestamp))
+		case didRun:
+			w.c.Count("jc.observed.reaped-before-start-was-seen(stale pod cache)")
 		}
 	}
 }
